@@ -120,13 +120,24 @@ theorem input_split_partial (hloc : ParseLocal) (c : Ctx) (h : WF c) (a b : Byte
     (hfit : Fits c (a.length + b.length)) (hq : NoQuotes (c.buf.take c.position ++ a ++ b))
     (hcr : NoCR (c.buf.take c.position ++ a ++ b)) :
     Observable (input (input c a) b) = Observable (input c (a ++ b)) :=
-  (input_split_R hloc good_clean c h a b ha hb hfit ⟨hq, hcr⟩).obs
+  (input_split_R hloc.on good_clean c h a b ha hb hfit ⟨hq, hcr⟩ trivial).obs
 
 theorem chunking_invariant_partial (hloc : ParseLocal) (c : Ctx) (h : WF c) (cs : List Bytes) (hne : ∀ x ∈ cs, x ≠ [])
     (hcs : cs ≠ []) (hfit : Fits c cs.flatten.length) (hq : NoQuotes (c.buf.take c.position ++ cs.flatten))
     (hcr : NoCR (c.buf.take c.position ++ cs.flatten)) :
     Observable (cs.foldl input c) = Observable (input c cs.flatten) :=
-  (chunks_R hloc good_clean cs c h hcs hne hfit ⟨hq, hcr⟩).obs
+  (chunks_R hloc.on good_clean cs c h hcs hne hfit ⟨hq, hcr⟩ (fun _ _ => trivial)).obs
+
+theorem flatten_ne_nil_of {cs cs' : List Bytes} (hne : ∀ x ∈ cs, x ≠ []) (hs : cs.flatten = cs'.flatten) (hcs : cs ≠ []) :
+    cs' ≠ [] := by
+  intro h0
+  subst h0
+  cases cs with
+  | nil => exact hcs rfl
+  | cons x rest =>
+    have hx := hne x (by simp)
+    simp at hs
+    exact hx hs.1
 
 /-- two partitions of the same stream -/
 theorem chunking_invariant_clean (hloc : ParseLocal) (c : Ctx) (h : WF c) (cs cs' : List Bytes)
@@ -134,17 +145,33 @@ theorem chunking_invariant_clean (hloc : ParseLocal) (c : Ctx) (h : WF c) (cs cs
     (hfit : Fits c cs.flatten.length) (hq : NoQuotes (c.buf.take c.position ++ cs.flatten))
     (hcr : NoCR (c.buf.take c.position ++ cs.flatten)) :
     Observable (cs.foldl input c) = Observable (cs'.foldl input c) := by
-  have hcs' : cs' ≠ [] := by
-    intro h0
-    subst h0
-    cases cs with
-    | nil => exact hcs rfl
-    | cons x rest =>
-      have hx := hne.1 x (by simp)
-      simp at hs
-      exact hx hs.1
+  have hcs' := flatten_ne_nil_of hne.1 hs hcs
   rw [chunking_invariant_partial hloc c h cs hne.1 hcs hfit hq hcr,
     chunking_invariant_partial hloc c h cs' hne.2 hcs' (by rw [← hs]; exact hfit) (by rw [← hs]; exact hq)
       (by rw [← hs]; exact hcr), hs]
+
+/-! ## chunkings of a stream without quote characters that are not cut directly after a CR -/
+
+theorem input_split_cr (hloc : ParseLocalCR) (c : Ctx) (h : WF c) (a b : Bytes) (ha : a ≠ []) (hb : b ≠ [])
+    (hfit : Fits c (a.length + b.length)) (hq : NoQuotes (c.buf.take c.position ++ a ++ b))
+    (hcut : a.getLast? ≠ some 13) :
+    Observable (input (input c a) b) = Observable (input c (a ++ b)) :=
+  (input_split_R hloc.on good_cr c h a b ha hb hfit hq (good_cr.app1 _ a ha hcut)).obs
+
+theorem chunking_invariant_cr (hloc : ParseLocalCR) (c : Ctx) (h : WF c) (cs : List Bytes) (hne : ∀ x ∈ cs, x ≠ [])
+    (hcs : cs ≠ []) (hfit : Fits c cs.flatten.length) (hq : NoQuotes (c.buf.take c.position ++ cs.flatten))
+    (hcut : ∀ x ∈ cs, x.getLast? ≠ some 13) :
+    Observable (cs.foldl input c) = Observable (input c cs.flatten) :=
+  (chunks_R hloc.on good_cr cs c h hcs hne hfit hq hcut).obs
+
+/-- two partitions of the same stream, neither of which cuts directly after a CR -/
+theorem chunking_invariant_cr2 (hloc : ParseLocalCR) (c : Ctx) (h : WF c) (cs cs' : List Bytes)
+    (hne : (∀ x ∈ cs, x ≠ []) ∧ (∀ x ∈ cs', x ≠ [])) (hs : cs.flatten = cs'.flatten) (hcs : cs ≠ [])
+    (hfit : Fits c cs.flatten.length) (hq : NoQuotes (c.buf.take c.position ++ cs.flatten))
+    (hcut : (∀ x ∈ cs, x.getLast? ≠ some 13) ∧ (∀ x ∈ cs', x.getLast? ≠ some 13)) :
+    Observable (cs.foldl input c) = Observable (cs'.foldl input c) := by
+  have hcs' := flatten_ne_nil_of hne.1 hs hcs
+  rw [chunking_invariant_cr hloc c h cs hne.1 hcs hfit hq hcut.1,
+    chunking_invariant_cr hloc c h cs' hne.2 hcs' (by rw [← hs]; exact hfit) (by rw [← hs]; exact hq) hcut.2, hs]
 
 end ScpiVerif.Lemmas.Chunking
